@@ -11,7 +11,11 @@ CFG = cfg('C18', refine=['Refine_fingerprint'], extract='Ex_C18', driver='c18',
                'histories copy / pubkey / protect / unlock / lock / binary + armored re-import (fixed plan quick, + random walks thorough) with the '
                'emitted secret packet compared to the model after every step; Issuer / IssuerFingerprint subpackets of stored, fresh data and '
                'certification signatures and PKESK key ids; ECDH secret (sub)keys with NON-default KDF parameters written by the model encoder (= edited exported packet), '
-               'loaded by PGPy: private packet, pubkey() and PGPKey.pubkey agree on fingerprint / key id / exported body = RFC values; freshly generated keys. distinct = distinct canonical (suite, model input)',
+               'loaded by PGPy: private packet, pubkey() and PGPKey.pubkey agree on fingerprint / key id / exported body = RFC values; freshly generated keys; '
+               'algorithm ids without a material class (21, 0): public packets keep fingerprint and export octets under copy.copy / export+import / PGPKey copy, pubkey, re-import; '
+               'private packets: pubkey() and PGPKey.pubkey must refuse with NotImplementedError (model: pubkey_pkt = None) and leave the packet unchanged; '
+               'secret packets whose secret part is written by the model encoder (S2K usage 255 / 254 for DSA, ElGamal, RSA, EC; GNU stubs incl. smartcard with empty serial): '
+               'fields read = fields encoded, re-emitted octets equal, fingerprint = public packet\'s. distinct = distinct canonical (suite, model input)',
           trusted=['Spec/Rfc4880_keys.v (RFC 4880 3.2 / 5.5.2 / 12.2, RFC 6637 6 / 9 / 11 transcription)',
                    'hashlib SHA-1 (primitive oracle; the same library PGPy calls)'],
           assumptions=['SHA-1 is a universally quantified function in the theorems (20 well-formed octets where the key id is concerned); hashing by '
@@ -23,10 +27,11 @@ TEXT = ('Rocq theorems (Props/C18.v, closed under the global context): publen() 
         '(MPIs, OID field, EC point, ECDH KDF block); the public packet body is the first 6+publen octets of the secret packet body; the body equals the '
         'RFC 4880 5.5.2 / RFC 6637 body written from the fields (incl. the DER OID table); the fingerprint as the code computes it (pieces, publen slicing of '
         'the secret material, first+last length octet) equals SHA-1(0x99 || len2 || exported body) whenever 6+publen < 65536; it depends on creation time, '
-        'algorithm and public material only and is invariant along every op list of protect / unlock / lock / pubkey / copy / export+import (induction, '
-        'uses the parse-after-emit theorem); key id = low 64 bits; emitted Issuer / IssuerFingerprint / PKESK fields read back as the id. Outside the '
+        'algorithm and public material only; along every op list of protect / unlock / lock / pubkey / copy / export+import no step refuses a key of a supported algorithm and the fingerprint is invariant (induction, '
+        'uses the parse-after-emit theorem); pubkey() is partial (refuses exactly private packets with opaque material) and EVERY twin it produces has the key\'s fingerprint (no exception for opaque material); key id = low 64 bits; emitted Issuer / IssuerFingerprint / PKESK fields read back as the id. Outside the '
         'premises: public keys of algorithm ids without a material class get the RFC value (theorem; the code before repair e03112d, publen 0, is refuted and '
-        'characterised), private ones are characterised and refuted (whole stored material hashed, empty twin); bodies >= 65536 octets characterised. Tie: extracted '
+        'characterised) and pass unchanged through every history; private ones are characterised (whole stored material hashed, pubkey() refuses; the total pubkey() and the lossy copy before repair 3c1c8c6 are kept as '
+        'pubkey_pkt_old / copy_pkt_old and refuted: empty twin, other fingerprint); bodies >= 65536 octets characterised. Tie: extracted '
         'model with hashlib as SHA-1 oracle is an independent fingerprint calculator and key-packet encoder run against PGPy; source of the two anchored '
         'methods pinned.',
         'DESIGN.md 5 C18',
